@@ -1073,3 +1073,77 @@ func vh_C04_ResultsAreIndependent() {
 	}
 	vfReach("end")
 }
+
+// a receiver with NO map under it - a zero-valued set (new(...)), the package's utility instance, or the result of
+// Intersection(nil) - united with a non-empty argument: the result holds the argument's entries, and from then on
+// writing to the result (Set) does not reach the argument, nor writing to the argument the earlier result
+func vh_C04_NilMapReceiver() {
+	vfSetMapOrder(3)
+	k1, v1, k2, v2 := vfInt("k1"), vfInt("v1"), vfInt("k2"), vfInt("v2")
+	writeResult := vfChoose("then-write-to", 2) == 0
+	switch vfChoose("family", 3) {
+	case 0: // generic MapSet
+		arg := SetFromMap(map[int]int{k1: v1})
+		var recv *MapSetDef[int, int]
+		if vfChoose("receiver", 2) == 0 {
+			recv = new(MapSetDef[int, int])
+		} else {
+			recv = SetFromMap(map[int]int{k2: v2}).Intersection(nil).AsMapSet()
+		}
+		var r SetDef[int, int]
+		if !vfNoPanic("Union/nopanic", func() { r = recv.Union(arg) }) || r == nil {
+			return
+		}
+		vfAssert("Union/membership", vfAnd(r.ContainsKey(k1), r.Size() == 1))
+		vfAssert("Union/value", r.Get(k1) == v1)
+		vfAssume(k2 != k1)
+		if writeResult {
+			if !vfPanics(func() { r.Set(k2, v2) }) {
+				vfAssert("Union/set-on-result-leaves-existing-collections-unchanged", vfAnd(!arg.ContainsKey(k2), arg.Size() == 1))
+			}
+		} else {
+			arg.Set(k2, v2)
+			vfAssert("Union/earlier-result-unchanged-by-later-write-to-argument", vfAnd(!r.ContainsKey(k2), r.Size() == 1))
+		}
+	case 1: // interface{} set
+		arg := SetForInterfaceFromMap(map[interface{}]interface{}{k1: v1})
+		recv := new(SetForInterfaceDef)
+		if vfChoose("receiver", 2) == 1 {
+			recv = &Set // the package's utility instance
+		}
+		var r *SetForInterfaceDef
+		if !vfNoPanic("Union/nopanic", func() { r = recv.Union(arg) }) || r == nil {
+			return
+		}
+		vfAssert("Union/membership", vfAnd(r.ContainsKey(k1), r.Size() == 1))
+		vfAssume(k2 != k1)
+		if writeResult {
+			if r != arg && !vfPanics(func() { r.Set(k2, v2) }) {
+				vfAssert("Union/set-on-result-leaves-existing-collections-unchanged", vfAnd(!arg.ContainsKey(k2), arg.Size() == 1))
+			}
+		} else if r != arg {
+			arg.Set(k2, v2)
+			vfAssert("Union/earlier-result-unchanged-by-later-write-to-argument", vfAnd(!r.ContainsKey(k2), r.Size() == 1))
+		}
+	default: // interface{} stream set, utility instance
+		arg := StreamSetForInterface.Clone()
+		st := StreamForInterface.FromArrayInt([]int{v1})
+		arg.Set(k1, st)
+		recv := &StreamSetForInterface
+		var r *StreamSetForInterfaceDef
+		if !vfNoPanic("Union/nopanic", func() { r = recv.Union(arg) }) || r == nil {
+			return
+		}
+		vfAssert("Union/membership", vfAnd(r.ContainsKey(k1), r.Size() == 1))
+		vfAssume(k2 != k1)
+		if writeResult {
+			if r != arg && !vfPanics(func() { r.Set(k2, StreamForInterface.FromArrayInt([]int{v2})) }) {
+				vfAssert("Union/set-on-result-leaves-existing-collections-unchanged", vfAnd(!arg.ContainsKey(k2), arg.Size() == 1))
+			}
+		} else if r != arg {
+			arg.Set(k2, StreamForInterface.FromArrayInt([]int{v2}))
+			vfAssert("Union/earlier-result-unchanged-by-later-write-to-argument", vfAnd(!r.ContainsKey(k2), r.Size() == 1))
+		}
+	}
+	vfReach("end")
+}
